@@ -587,6 +587,14 @@ def answer (line : String) : String :=
     | ["gtrace", _tp, evs] => opGTrace evs
     | ["ftrace", evs] => opFTrace evs
     | ["wirebody", method, desc] => opWireBody method desc impl
+    | ["conncodes", _method, codes] =>
+      -- Conn.offsetCommit / Conn.offsetFetch report the FIRST non-zero per-partition code of the response (nil if none)
+      match (codes.splitOn ",").mapM (·.toInt?) with
+      | some cs =>
+        let e := KV.Spec.GroupWire.firstError cs
+        let want := if e == 0 then "nil" else s!"k{e}"
+        s!"model={want} holds={if impl == want then 1 else 0}"
+      | none => "bad-op"
     | ["assignerr", _code] =>
       -- a failed OffsetFetch never yields assignments (hypothesis of start_at_committed)
       s!"model=err holds={if impl == "err" then 1 else 0}"
